@@ -206,10 +206,42 @@ func (f *fragReader) Read(p []byte) (int, error) {
 	return n, nil
 }
 
-func c16scan(mk func() io.Reader) map[string]any {
+// c16scanner returns a Scanner over r in one of several lifecycle states: fresh,
+// or previously used on other input (mid-token, at end of input, after Rest, or
+// built on a nil reader) and then Reset.  Reset must make it behave as fresh.
+func c16scanner(r io.Reader, mode int) *shell.Scanner {
+	switch mode % 5 {
+	case 1:
+		sc := shell.NewScanner(strings.NewReader("one 'two three"))
+		sc.Next()
+		sc.Reset(r)
+		return sc
+	case 2:
+		sc := shell.NewScanner(strings.NewReader("x \"y"))
+		for sc.Next() {
+		}
+		sc.Reset(r)
+		return sc
+	case 3:
+		sc := shell.NewScanner(strings.NewReader("p q r s"))
+		sc.Next()
+		sc.Rest()
+		sc.Reset(r)
+		return sc
+	case 4:
+		sc := shell.NewScanner(nil)
+		sc.Reset(r)
+		return sc
+	}
+	return shell.NewScanner(r)
+}
+
+func c16scan(mk func() io.Reader) map[string]any { return c16scanM(mk, 0) }
+
+func c16scanM(mk func() io.Reader, mode int) map[string]any {
 	out := map[string]any{"toks": [][]int{}, "completes": []bool{}, "final": false, "err": "", "again": true,
 		"each": [][]int{}, "splitm": [][]int{}}
-	sc := shell.NewScanner(mk())
+	sc := c16scanner(mk(), mode)
 	toks, comps := [][]int{}, []bool{}
 	for sc.Next() {
 		toks = append(toks, bytesJ(sc.Text()))
@@ -229,9 +261,9 @@ func c16scan(mk func() io.Reader) map[string]any {
 	}
 	out["again"] = sc.Next() || sc.Next()
 	each := [][]int{}
-	shell.NewScanner(mk()).Each(func(t string) bool { each = append(each, bytesJ(t)); return true })
+	c16scanner(mk(), mode+1).Each(func(t string) bool { each = append(each, bytesJ(t)); return true })
 	out["each"] = each
-	out["splitm"] = toksJ(shell.NewScanner(mk()).Split())
+	out["splitm"] = toksJ(c16scanner(mk(), mode+2).Split())
 	return out
 }
 
@@ -266,16 +298,23 @@ func c16rec(s string, rng *rand.Rand, cutsIn [][]int) Ev {
 			}
 		}
 		ev["cuts"] = cuts
-		for _, cs := range cuts {
+		for i, cs := range cuts {
 			cs := cs
-			scans = append(scans, c16scan(func() io.Reader { return &fragReader{data: []byte(s), cuts: cs} }))
+			scans = append(scans, c16scanM(func() io.Reader { return &fragReader{data: []byte(s), cuts: cs} }, i+1))
 		}
 		// a reader whose end of input is not sticky: tokens are those of the first part only
 		scans = append(scans, c16scan(func() io.Reader { return &flakyEOF{first: []byte(s), more: []byte(" zz 'q q' yy\n")} }))
 		ev["scans"] = scans
 		rests := []any{}
 		for k := 0; k <= len(toks)+1; k++ {
-			sc := shell.NewScanner(strings.NewReader(s))
+			// odd k: a re-used (Reset) scanner over a fragmenting reader; Rest must still be
+			// exactly the unconsumed bytes of *this* input
+			var sc *shell.Scanner
+			if k%2 == 1 && len(cuts) > 0 {
+				sc = c16scanner(&fragReader{data: []byte(s), cuts: cuts[k%len(cuts)]}, k/2+1)
+			} else {
+				sc = c16scanner(strings.NewReader(s), k/2)
+			}
 			for j := 0; j < k; j++ {
 				sc.Next()
 			}
